@@ -994,3 +994,14 @@ def _(I, s, pred):
     for i in range(len(items)):
         if not I.W.branch(I.call_closure(pred, tup(Ptr(Cell(s.obj), (s.start + i,))))): return i
     return len(items)
+
+
+@summary("core::slice::<impl []>::binary_search", "<impl []>::binary_search")
+def _(I, s, xp):
+    """sorted slice: Ok(index of an equal element) or Err(insertion point); linear, forking on symbolic comparisons"""
+    x = I.deref(xp); items = s.items()
+    for i, y in enumerate(items):
+        c = I.cmp_generic(y, x)
+        if c == 0: return ok(i)
+        if c > 0: return err(i)
+    return err(len(items))
